@@ -788,6 +788,15 @@ func (s *scope) createInstance(descriptor *Descriptor) (any, error) {
 				Group: serviceDescriptor.Group,
 			}
 
+			if value == nil {
+				// An output the constructor left nil has no value, but its registration
+				// has been constructed: as for a nil result-object field, a later
+				// resolution reports the missing value instead of running the
+				// constructor again
+				s.shareInstance(serviceDescriptor, key, absentOutput{})
+				continue
+			}
+
 			if err := s.setInstance(serviceDescriptor, key, value); err != nil {
 				trackErr = err
 			}
@@ -797,7 +806,12 @@ func (s *scope) createInstance(descriptor *Descriptor) (any, error) {
 			return nil, trackErr
 		}
 
-		return results[descriptor.MultiReturnIndex].Interface(), nil
+		primary := results[descriptor.MultiReturnIndex].Interface()
+		if primary == nil {
+			return nil, absentOutputError(descriptor.identity())
+		}
+
+		return primary, nil
 	}
 
 	instance := results[0].Interface()
